@@ -72,6 +72,9 @@ def run(ctx):
     import rogue
     rogue.campaign(ctx, res, ctx.scale(12, 200), 50, oracles=ORACLES)
     during_ike_rekey(ctx, res)
+    # the two ends happen to choose the same 4-byte value for different CHILD_SAs, then delete / rekey either of them
+    import c09
+    c09.coincide_campaign(ctx, res, oracles=ORACLES, deep=True)
     return res
 
 
